@@ -400,6 +400,105 @@ func vMsPending(db *LockDB) bool {
 	return false
 }
 
+// vMsEntries: a census of the expiry ENTRIES of the hold record of `key` in shard 0: the slot of the millisecond expiry table it sits in (-1: none),
+// and how often the record is found in the millisecond table, in the long table and in the second wheel
+func vMsEntries(db *LockDB, key int) (slot, nMs, nLong, nWheel int) {
+	slot = -1
+	m := db.GetLockManager(&protocol.LockCommand{LockKey: vId16(key)})
+	if m == nil {
+		return
+	}
+	db.managerGlocks[0].Lock()
+	defer db.managerGlocks[0].Unlock()
+	l := m.currentLock
+	if l == nil || m.lockKey != vId16(key) {
+		return
+	}
+	count := func(q *LockQueue) int {
+		n := 0
+		for i := range q.IterNodes() {
+			for _, x := range q.IterNodeQueues(int32(i)) {
+				if x == l {
+					n++
+				}
+			}
+		}
+		return n
+	}
+	for i, q := range db.millisecondExpriedLocks[0] {
+		if q != nil {
+			if c := count(&q.LockQueue); c > 0 {
+				nMs += c
+				if slot < 0 {
+					slot = i
+				}
+			}
+		}
+	}
+	for _, lq := range db.longExpriedLocks[0] {
+		if lq != nil {
+			nLong += count(&lq.locks)
+		}
+	}
+	for _, qs := range db.expriedLocks {
+		if len(qs) > 0 && qs[0] != nil {
+			nWheel += count(qs[0])
+		}
+	}
+	return
+}
+
+func vMsSlot(db *LockDB, key int) int {
+	slot, _, _, _ := vMsEntries(db, key)
+	return slot
+}
+
+// vMsReterm: the observation of the msupd differential from the real state after the update / re-lock: `before` = the hold before it
+func vMsReterm(v *vSeq, key, req int, before vHoldSnap, slot0 int) string {
+	hsA := v.keySnap(key).holds
+	if len(hsA) != 1 {
+		return "hold-gone"
+	}
+	slot1, nMs, nLong, nWheel := vMsEntries(v.db, key)
+	if hsA[0].req == req && hsA[0].expT == before.expT {
+		return "ignored"
+	}
+	cls := ""
+	switch {
+	case slot1 >= 0 && slot1 == slot0:
+		cls = fmt.Sprintf("stale:%d", hsA[0].expT)
+	case slot1 >= 0:
+		cls = fmt.Sprintf("reparked:%d", hsA[0].expT)
+	case hsA[0].long:
+		cls = fmt.Sprintf("second:%d:long", hsA[0].expT)
+	default:
+		cls = fmt.Sprintf("second:%d", hsA[0].expT)
+	}
+	// exactly one entry, in the table the classification names (a second entry, or none, is not something the model can say)
+	wMs, wLong, wWheel := 0, 0, 0
+	switch {
+	case slot1 >= 0:
+		wMs = 1
+	case hsA[0].long:
+		wLong = 1
+	default:
+		wWheel = 1
+	}
+	if nMs != wMs || nLong != wLong || nWheel != wWheel {
+		cls += fmt.Sprintf("!entries(ms=%d,long=%d,wheel=%d)", nMs, nLong, nWheel)
+	}
+	return cls
+}
+
+func vIndexOr(s string, c byte) int {
+	for i := 0; i < len(s); i++ {
+		if s[i] == c {
+			return i
+		}
+	}
+	return len(s)
+}
+
 func strings_ReplaceDots(s string) string {
 	b := []byte(s)
 	for i := range b {
@@ -541,8 +640,13 @@ func vMsRealRun(t *testing.T) {
 // mode msupd — an UPDATE (flag 0x02) or a RE-LOCK (same LockId, Rcount) gives a hold new terms while the hold's expiry entry sits in
 // one of the four places an entry can be: the second wheel, the long table, parked in the millisecond table, or handed over from the
 // millisecond table to the second wheel. New terms in either unit. C06: the hold ends no earlier than the NEW terms say (measured from
-// the update) and not later than the bound; C17: nothing is left behind once everything has ended. Monitors only (no model line):
-// virtual server clock, real wall clock for the millisecond stage, as in msw.
+// the update) and not later than the bound; C17: nothing is left behind once everything has ended. Virtual server clock, real wall clock for
+// the millisecond stage, as in msw. Besides the monitors every case emits ONE line for the differential with M-MSWHEEL's re-term decision
+// (lean/Slock/Model/MsWheel.lean, `reterm`), read off the real state right after the update / re-lock was answered:
+//   op   `msupd <place wheel|long|parked|handed> <op u|r> <countsEq 0|1> <now> <expT> <unit s|ms> <val>`
+//   obs  `ignored` | `second:<deadline>[:long]` | `reparked:<deadline>` | `stale:<deadline>:<fire|second:<d>>`
+// (`stale`: the record carries the new command, its entry is still in the millisecond slot it was in before; the part after the second colon is
+// what the park goroutine did with it when the OLD park ended).
 
 type vMsTerm struct {
 	ms  bool
@@ -648,15 +752,43 @@ func vMsUpdRun(t *testing.T) {
 			opName = "update(+Rcount)"
 			replay["op"] = opName
 		}
+		// the model's input, from the real state just before the op: where the expiry entry is, the server second, the hold's deadline
+		slot0 := vMsSlot(v.db, key)
+		mPlace := "wheel"
+		switch {
+		case slot0 >= 0:
+			mPlace = "parked"
+		case hs[0].long:
+			mPlace = "long"
+		case b.term.ms:
+			mPlace = "handed"
+		}
+		opLine := fmt.Sprintf("msupd %s %s %d %d %d %s %d", mPlace, map[bool]string{false: "u", true: "r"}[relock], map[bool]int{false: 0, true: 1}[rc2 == 3],
+			v.db.currentTime, hs[0].expT, map[bool]string{false: "s", true: "ms"}[nw.ms], nw.val)
 		tOp := time.Now()
 		_ = v.conns[0].ProcessLockCommand(&protocol.LockCommand{Command: protocol.Command{Magic: protocol.MAGIC, Version: protocol.VERSION, CommandType: protocol.COMMAND_LOCK, RequestId: vId16(req + 1)},
 			Flag: flag, LockId: vId16(req), LockKey: vId16(key), ExpriedFlag: nw.eflag(), Expried: uint16(nw.val), Rcount: rc2})
+		// ... and the observation, from the real state right after it was answered
+		cls := vMsReterm(v, key, req, hs[0], slot0)
+		stale := len(cls) > 6 && cls[:6] == "stale:"
 		opReplies := rec.get(req + 1)
 		if len(opReplies) != 1 || (opReplies[0].result != 0 && opReplies[0].result != int(protocol.RESULT_LOCKED_ERROR)) {
+			out.emit(opLine, "refused:"+cls) // the model knows no refusal: an update / re-lock of an own, acknowledged hold is always accepted
 			out.stat("op-refused")
 			_ = v.conns[0].ProcessLockCommand(vMsCmd(protocol.COMMAND_UNLOCK, req+2, req, key, 0, 0, 0, 0))
 			continue
 		}
+		if cls == "hold-gone" {
+			// scheduling stall: the hold ended (a short re-park fired) before the state could be read — nothing to compare
+			skip := "# msupd-skipped " + opLine
+			out.emit(skip, skip)
+			out.stat("reterm-unreadable")
+			continue
+		}
+		if !stale {
+			out.emit(opLine, cls)
+		}
+		out.stat("reterm:" + mPlace + ":" + cls[:vIndexOr(cls, ':')])
 		what := fmt.Sprintf("hold whose expiry entry was in place `%s` (granted with %s) and was given %s by a %s", place, b.term, nw, opName)
 		done = append(done, vMsUpdCase{key, b.name, what})
 		release := func() {
@@ -721,6 +853,24 @@ func vMsUpdRun(t *testing.T) {
 			time.Sleep(10 * time.Millisecond)
 			g, ok = ended()
 		}
+		if stale {
+			// the OLD park is over (or the 3 s of patience are): what did the park goroutine do with the entry?
+			after := "still-parked"
+			if ok {
+				after = "fire"
+			} else if hsB := v.keySnap(key).holds; vMsSlot(v.db, key) < 0 && len(hsB) == 1 {
+				after = fmt.Sprintf("second:%d", hsB[0].expT)
+			} else if len(hsB) != 1 {
+				after = "hold-gone"
+			}
+			if after == "still-parked" || after == "hold-gone" {
+				skip := "# msupd-skipped " + opLine + " " + after // timing: the park goroutine is late / the hold is already gone
+				out.emit(skip, skip)
+				out.stat("reterm-unreadable")
+			} else {
+				out.emit(opLine, cls+":"+after)
+			}
+		}
 		if os.Getenv("VERIF_MSUPD_DEBUG") != "" {
 			df, _ := os.OpenFile(os.Getenv("VERIF_OUT")+"/msupd.debug", os.O_APPEND|os.O_CREATE|os.O_WRONLY, 0o644)
 			fmt.Fprintf(df, "DEBUG case %d %s %s -> %s: after wall phase ended=%v pending=%v snap=%+v replies=%v %v\n", ci, b.name, opName, nw, ok, vMsPending(v.db), v.keySnap(key), rec.get(req), rec.get(req+1))
@@ -774,6 +924,43 @@ func vMsUpdRun(t *testing.T) {
 		}
 		out.stat(opName)
 		out.stat("new:" + nw.String())
+	}
+	// three fixed extra cases for the differential (model line only): second-unit terms chosen RELATIVE to the deadline of a hold whose entry
+	// is in the long table — a re-lock that leaves the deadline unchanged (the entry must stay in the long table), an update one second off
+	// with unchanged counts (the second-unit shortcut: ignored), the same with a changed Rcount (moved to the second wheel)
+	for x := 0; x < 3 && only < 0; x++ {
+		key++
+		req += 4
+		_ = v.conns[0].ProcessLockCommand(&protocol.LockCommand{Command: protocol.Command{Magic: protocol.MAGIC, Version: protocol.VERSION, CommandType: protocol.COMMAND_LOCK, RequestId: vId16(req)},
+			LockId: vId16(req), LockKey: vId16(key), Expried: 400, Rcount: 3})
+		for k := 0; k < 60; k++ {
+			v.tick()
+			if hs := v.keySnap(key).holds; len(hs) == 1 && hs[0].long {
+				break
+			}
+		}
+		hs := v.keySnap(key).holds
+		if len(hs) != 1 || !hs[0].long || vMsSlot(v.db, key) >= 0 {
+			out.stat("extra-base-not-in-long-table")
+			continue
+		}
+		rem := int(hs[0].expT - v.db.currentTime - 1) // the value that reproduces the current deadline
+		flag, rc2, val, opc, ce := uint8(0), uint8(3), rem, "r", 1
+		switch x {
+		case 1:
+			flag, val, opc = protocol.LOCK_FLAG_UPDATE_WHEN_LOCKED, rem-1, "u"
+		case 2:
+			flag, rc2, val, opc, ce = protocol.LOCK_FLAG_UPDATE_WHEN_LOCKED, 4, rem-1, "u", 0
+		}
+		opLine := fmt.Sprintf("msupd long %s %d %d %d s %d", opc, ce, v.db.currentTime, hs[0].expT, val)
+		_ = v.conns[0].ProcessLockCommand(&protocol.LockCommand{Command: protocol.Command{Magic: protocol.MAGIC, Version: protocol.VERSION, CommandType: protocol.COMMAND_LOCK, RequestId: vId16(req + 1)},
+			Flag: flag, LockId: vId16(req), LockKey: vId16(key), Expried: uint16(val), Rcount: rc2})
+		cls := vMsReterm(v, key, req, hs[0], -1)
+		out.emit(opLine, cls)
+		out.stat("reterm:long(relative):" + cls[:vIndexOr(cls, ':')])
+		done = append(done, vMsUpdCase{key, "long-table", fmt.Sprintf("hold in the long table given %d s (its deadline was %d s ahead) by `%s`", val, rem+1, opc)})
+		_ = v.conns[0].ProcessLockCommand(&protocol.LockCommand{Command: protocol.Command{Magic: protocol.MAGIC, Version: protocol.VERSION, CommandType: protocol.COMMAND_UNLOCK, RequestId: vId16(req + 2)},
+			LockId: vId16(req), LockKey: vId16(key)}) // Rcount 0: every level at once
 	}
 	// C17: everything has ended or was released: after the parks and 20 s of server time no key record may be left
 	for w := 0; w < 400 && vMsPending(v.db); w++ {
